@@ -228,6 +228,11 @@ func PerformInvite(ctx context.Context, input PerformInviteInput, fedClient Fede
 				return nil, spec.Forbidden(err.Error())
 			}
 
+			// The event is the remote server's answer: nothing so far says it is a state event.
+			if inviteEvent.StateKey() == nil {
+				logger.Error("fedClient.SendInviteV3 returned an event without a state key")
+				return nil, spec.Forbidden("remote server returned an invite event without a state key")
+			}
 			err = input.StoreSenderIDFromPublicID(ctx, spec.SenderID(*inviteEvent.StateKey()), input.Invitee.String(), input.RoomID)
 			if err != nil {
 				logger.WithError(err).Errorf("failed storing senderID for %s", input.Invitee.String())
